@@ -113,7 +113,7 @@ func (ex *Exec) goMod(a, b *Term) *Term {
 }
 
 func (ex *Exec) ensureGoDiv() {
-	if _, ok := ex.D.byName["go.div"]; ok {
+	if ok := ex.D.has("go.div"); ok {
 		return
 	}
 	a, b := mk("a", SInt), mk("b", SInt)
@@ -130,7 +130,7 @@ func (ex *Exec) b2i(b *Term) *Term {
 		n, _ := strconv.ParseInt(b.Op[2:], 16, 64)
 		return intLit(n)
 	}
-	if _, ok := ex.D.byName["b2i"]; !ok {
+	if ok := ex.D.has("b2i"); !ok {
 		x := mk("x", SByte)
 		var sum *Term = intLit(0)
 		for i := 0; i < 8; i++ {
@@ -147,7 +147,7 @@ func (ex *Exec) i2b(i *Term) *Term {
 	if n, ok := isIntLit(i); ok {
 		return byteLit(uint8(n))
 	}
-	if _, ok := ex.D.byName["i2b"]; !ok {
+	if ok := ex.D.has("i2b"); !ok {
 		ex.b2i(mk("x", SByte)) // ensure b2i
 		ex.D.declare("i2b", []string{SInt}, SByte)
 		v := mk("i?", SInt)
@@ -848,7 +848,7 @@ func (ex *Exec) addrOf(st *State, e *ast.UnaryExpr) *Val {
 }
 
 func (ex *Exec) fpMk(ref, fid *Term) *Term {
-	if _, ok := ex.D.byName["fp.mk"]; !ok {
+	if ok := ex.D.has("fp.mk"); !ok {
 		ex.D.declare("fp.mk", []string{SInt, SInt}, SInt)
 		ex.D.declare("fp.ref", []string{SInt}, SInt)
 		ex.D.declare("fp.fid", []string{SInt}, SInt)
